@@ -403,7 +403,11 @@ func lexFamily(raw json.RawMessage) Result {
 				return res
 			}
 		}
-		_, err := textwire.EvaluateString(string(src), nil)
+		// (evaluated only when the parser recorded errors: an accepted template may loop for ever by design)
+		var err error
+		if len(errs) > 0 {
+			_, err = textwire.EvaluateString(string(src), nil)
+		}
 		if len(errs) > 0 && err == nil {
 			res.Status, res.Kind, res.Msg = "viol", "errors-ignored", "EvaluateString succeeded although the parser recorded: "+errs[0].String()
 			return res
